@@ -288,6 +288,43 @@ Theorem C07_panicking_ctors : forall h m s x, in_u32 h = true -> in_u32 m = true
 Proof. exact (fun h m s x H1 H2 H3 H4 => conj (phms_spec h m s H1 H2 H3) (conj (phms_milli_spec h m s x H1 H2 H3 H4)
   (conj (phms_micro_spec h m s x H1 H2 H3 H4) (phms_nano_spec h m s x H1 H2 H3 H4)))). Qed.
 Print Assumptions C07_panicking_ctors.
+(* ---- NaiveDate::and_hms / and_hms_milli / and_hms_micro / and_hms_nano (deprecated, panicking) and their
+   checked forms, for EVERY date word d and all u32 arguments: the date part is carried over untouched, the
+   time is the reading of the NaiveTime constructor; the checked form is None, and the deprecated form
+   panics, exactly where the constructor accepts nothing; nothing else traps *)
+Theorem C07_date_and_hms_panicking : forall d h m s x,
+  in_u32 h = true -> in_u32 m = true -> in_u32 s = true -> in_u32 x = true ->
+  (nd_and_hms_opt d h m s =
+     Val (if hms_ok h m s then Some (DateTime.mk_ndt d (mk_time (secs_of_hms h m s) 0)) else None) /\
+   nd_and_hms d h m s = (if hms_ok h m s then Val (DateTime.mk_ndt d (mk_time (secs_of_hms h m s) 0)) else Panic)) /\
+  (nd_and_hms_milli_opt d h m s x =
+     Val (if accept_hms_nano h m s (x * 1000000)
+          then Some (DateTime.mk_ndt d (mk_time (secs_of_hms h m s) (x * 1000000))) else None) /\
+   nd_and_hms_milli d h m s x =
+     (if accept_hms_nano h m s (x * 1000000)
+      then Val (DateTime.mk_ndt d (mk_time (secs_of_hms h m s) (x * 1000000))) else Panic)) /\
+  (nd_and_hms_micro_opt d h m s x =
+     Val (if accept_hms_nano h m s (x * 1000)
+          then Some (DateTime.mk_ndt d (mk_time (secs_of_hms h m s) (x * 1000))) else None) /\
+   nd_and_hms_micro d h m s x =
+     (if accept_hms_nano h m s (x * 1000)
+      then Val (DateTime.mk_ndt d (mk_time (secs_of_hms h m s) (x * 1000))) else Panic)) /\
+  (nd_and_hms_nano_opt d h m s x =
+     Val (if accept_hms_nano h m s x then Some (DateTime.mk_ndt d (mk_time (secs_of_hms h m s) x)) else None) /\
+   nd_and_hms_nano d h m s x =
+     (if accept_hms_nano h m s x then Val (DateTime.mk_ndt d (mk_time (secs_of_hms h m s) x)) else Panic)).
+Proof. exact (fun d h m s x H1 H2 H3 H4 => conj (nd_and_hms_spec d h m s H1 H2 H3)
+  (conj (nd_and_hms_milli_spec d h m s x H1 H2 H3 H4)
+  (conj (nd_and_hms_micro_spec d h m s x H1 H2 H3 H4) (nd_and_hms_nano_spec d h m s x H1 H2 H3 H4)))). Qed.
+Print Assumptions C07_date_and_hms_panicking.
+Example C07_date_and_hms_inhabited :
+  nd_and_hms Proofs.C07Ndt.leap_date 23 59 59 = Val (DateTime.mk_ndt Proofs.C07Ndt.leap_date (mk_time 86399 0)) /\
+  nd_and_hms Proofs.C07Ndt.leap_date 24 0 0 = Panic /\
+  nd_and_hms_milli Proofs.C07Ndt.leap_date 23 59 59 1999 =
+    Val (DateTime.mk_ndt Proofs.C07Ndt.leap_date (mk_time 86399 1999000000)) /\
+  nd_and_hms_milli Proofs.C07Ndt.leap_date 23 59 58 1000 = Panic.
+Proof. exact and_hms_inhabited. Qed.
+Print Assumptions C07_date_and_hms_inhabited.
 Theorem C07_panicking_ctor_secs : forall secs n, in_u32 secs = true -> in_u32 n = true ->
   unwrap (from_num_seconds_from_midnight_opt secs n) =
     if accept_secs_nano secs n then Val (mk_time secs n) else Panic.
@@ -455,10 +492,19 @@ Theorem C07_dispatch_std : forall args,
 Proof. exact Proofs.C07Holds.dispatch_std. Qed.
 Print Assumptions C07_dispatch_std.
 
+(* the four ops of the deprecated NaiveDate::and_hms* (date, then the u32 arguments) *)
+Theorem C07_dispatch_and_hms : forall args,
+  run (B"ndt.phms") args = sh_d3 (fun d h m s => val_of_R DateTime.enc_ndt (nd_and_hms d h m s)) args /\
+  run (B"ndt.phms_milli") args = sh_d4 (fun d h m s x => val_of_R DateTime.enc_ndt (nd_and_hms_milli d h m s x)) args /\
+  run (B"ndt.phms_micro") args = sh_d4 (fun d h m s x => val_of_R DateTime.enc_ndt (nd_and_hms_micro d h m s x)) args /\
+  run (B"ndt.phms_nano") args = sh_d4 (fun d h m s x => val_of_R DateTime.enc_ndt (nd_and_hms_nano d h m s x)) args.
+Proof. exact dispatch_and_hms. Qed.
+Print Assumptions C07_dispatch_and_hms.
+
 (* ---- judge acceptance.  For EVERY op name and EVERY argument list: whenever the independent executable
    statement of the property (Judge/C07.v, written from the property text over Spec/TimeOfDay.v and
-   Spec/Gregorian.v) has an opinion on the case, it accepts the model's output.  All 41 ops of the dispatcher
-   are covered (an unknown op name is skipped by the judge).  39 ops need no premise at all
+   Spec/Gregorian.v) has an opinion on the case, it accepts the model's output.  All 45 ops of the dispatcher
+   are covered (an unknown op name is skipped by the judge).  43 ops need no premise at all
    (C07_holds_strict).  The two Timelike-on-NaiveDateTime ops (ndt.tacc, ndt.twith) need the argument list to
    decode ([run op args <> VBad]): their judge reads the time part only and does not examine the date, while
    the dispatcher decodes the whole date-time first and answers BADARGS for a date that does not exist (such
